@@ -1,6 +1,7 @@
 /- Relative-error calculus for the binary64 model, used for `rateOfInterval ≈ rateHz` (C15). -/
 import Nitime.Model.C15
 import Nitime.Lemmas.F64Bound
+import Nitime.Lemmas.C02
 import Mathlib.Tactic.Ring
 import Mathlib.Tactic.Linarith
 import Mathlib.Tactic.NormNum
@@ -122,5 +123,88 @@ theorem rate_near (f : Rat) (hf : 0 < f) (ps : Int) (hps : 0 < ps) :
     field_simp
   rw [e] at hfin
   exact hfin
+
+/-! ### rate → interval round trip (bridge over C02's float-chain lemmas `hz_core`, `period_core`, `rne_chain3`) -/
+
+/-- the float chain of `quantise u (rateOfInterval u k)` with unit factor `F`, written out -/
+def rtX (F : Rat) (k : Int) : Rat := F64.rne (F64.rne (k : Rat) / F)
+def rtR (F : Rat) (k : Int) : Rat := F64.rne (F64.rne (1 / rtX F k) * F64.rne (10 ^ 12 / F))
+def roundTrip (F : Rat) (k : Int) : Int :=
+  rint (F64.rne (F64.rne (F64.rne ((rint (F64.rne (F64.rne (1 / rtR F k) * 10 ^ 12)) : Int) : Rat) / F) * F))
+
+/-- for every whole interval `0 < k < 2⁴⁹` ps and every positive unit factor the chain gives `k` back.
+Unlike C02's `same_sampling_core` the interval enters as a TIME OBJECT, i.e. through the rounded quotient
+`x = fl(k/F)` (so `x·F` is only near `k`); the extra `k·2⁻⁵³` fits in the same budget. -/
+theorem roundTrip_eq (F : Rat) (k : Int) (hF : 0 < F) (hk0 : 0 < k) (hlt : k < 2 ^ 49) : roundTrip F k = k := by
+  unfold roundTrip rtR rtX
+  obtain ⟨ε, hε⟩ : ∃ ε : Rat, ε = 1 / 2 ^ 53 := ⟨_, rfl⟩
+  have εpos : 0 < ε := by rw [hε]; positivity
+  have εsmall : ε ≤ 1 / 1000 := by rw [hε]; norm_num
+  have hkpos : (0 : Rat) < k := by exact_mod_cast hk0
+  have hkR : (k : Rat) < 2 ^ 49 := by exact_mod_cast hlt
+  obtain ⟨kn, hkn⟩ := Int.eq_ofNat_of_zero_le hk0.le
+  have hknlt : kn < 2 ^ 53 := by
+    have : (kn : Int) < 2 ^ 49 := by rw [← hkn]; exact hlt
+    have : kn < 2 ^ 49 := by exact_mod_cast this
+    omega
+  have hrnek : F64.rne (k : Rat) = k := by
+    rw [hkn]; exact_mod_cast Nitime.C02F.rne_natCast kn hknlt
+  rw [hrnek]
+  -- x = fl(k/F) = (k/F)·ρ, |ρ − 1| ≤ ε
+  have hq : (k : Rat) / F ≠ 0 := by positivity
+  have hρ := Nitime.C02F.rne_ratio ((k : Rat) / F) hq
+  rw [← hε] at hρ
+  have hxpos : 0 < F64.rne ((k : Rat) / F) := by
+    have h1 := (abs_le.mp hρ).1
+    have hqpos : (0 : Rat) < (k : Rat) / F := by positivity
+    have : 0 < F64.rne ((k : Rat) / F) / ((k : Rat) / F) := by linarith
+    exact (div_pos_iff_of_pos_right hqpos).mp this
+  have hxk : |F64.rne ((k : Rat) / F) * F - k| ≤ k * ε := by
+    have e : F64.rne ((k : Rat) / F) * F - k = k * (F64.rne ((k : Rat) / F) / ((k : Rat) / F) - 1) := by
+      field_simp
+    rw [e, abs_mul, abs_of_pos hkpos]
+    exact mul_le_mul_of_nonneg_left hρ hkpos.le
+  generalize F64.rne ((k : Rat) / F) = x at *
+  obtain ⟨hzpos, hX⟩ := Nitime.C02.hz_core x F hxpos hF
+  rw [← hε] at hX
+  have hp := Nitime.C02.period_core _ hzpos
+  rw [← hε] at hp
+  generalize F64.rne (F64.rne (1 / x) * F64.rne (10 ^ 12 / F)) = hz at *
+  have Ppos : (0 : Rat) < 10 ^ 12 / hz := by positivity
+  generalize (10 : Rat) ^ 12 / hz = P at *
+  have hxF_le : x * F ≤ k * (1 + ε) := by
+    have := (abs_le.mp hxk).2; linarith
+  have hPle : P ≤ k * (1 + 5 * ε) := by
+    have h1 := (abs_le.mp hX).1
+    nlinarith [mul_pos Ppos εpos, mul_pos hkpos εpos, mul_pos (mul_pos hkpos εpos) εpos]
+  have εval : ε * 2 ^ 49 = 1 / 16 := by rw [hε]; norm_num
+  have hkε : (k : Rat) * ε < 1 / 16 := by
+    calc (k : Rat) * ε < 2 ^ 49 * ε := mul_lt_mul_of_pos_right hkR εpos
+      _ = 1 / 16 := by rw [mul_comm]; exact εval
+  have hPε : P * ε < 1 / 15 := by nlinarith [mul_pos hkpos εpos]
+  have hv : |F64.rne (F64.rne (1 / hz) * 10 ^ 12) - (k : Rat)| < 1 / 2 := by
+    have e : F64.rne (F64.rne (1 / hz) * 10 ^ 12) - (k : Rat)
+        = (F64.rne (F64.rne (1 / hz) * 10 ^ 12) - P) + ((P - x * F) + (x * F - k)) := by ring
+    rw [e]
+    have h2 : |P - x * F| ≤ P * (7 / 2 * ε) := by rw [abs_sub_comm]; exact hX
+    have h3 := abs_add_le (P - x * F) (x * F - k)
+    exact lt_of_le_of_lt (abs_add_le _ _) (by nlinarith)
+  have hpk : rint (F64.rne (F64.rne (1 / hz) * 10 ^ 12)) = k := Nitime.C02F.rint_eq_of_near _ k hv
+  rw [hpk, hrnek]
+  have hw := Nitime.C02F.rne_chain3 (k : Rat) F hF
+  rw [← hε, abs_of_pos hkpos, hrnek] at hw
+  apply Nitime.C02F.rint_eq_of_near
+  calc |F64.rne (F64.rne ((k : Rat) / F) * F) - (k : Rat)| ≤ (k : Rat) * (7 / 2 * ε) := hw
+    _ < 1 / 2 := by nlinarith
+
+theorem cf_pos (u : TimeUnit) : 0 < cf u := by cases u <;> decide +kernel
+
+theorem ofInt_1e12 : F64.ofInt (10 ^ 12) = 10 ^ 12 := by decide +kernel
+
+/-- the model's `quantise u (rateOfInterval u k)` is that chain with `F = cf u` -/
+theorem quantise_rateOfInterval (u : TimeUnit) (k : Int) :
+    quantise u (rateOfInterval u k) = roundTrip (cf u) k := by
+  simp only [quantise, rateOfInterval, freqOfPeriod, psOfFloat, toPeriod, roundTrip, rtR, rtX, fmul, fdiv, ofInt_1e12]
+  rfl
 
 end Nitime.C15.Lemmas
